@@ -1,316 +1,38 @@
 //go:build go1.25
 
-// C17: every blob download request returns exactly once.
-// E1q: the real scheduler (state, events, dispatcher, agent torrent storage)
-// with its event loop replaced by a harness loop: every event a goroutine
-// sends is a pending action, the explorer decides the order in which the loop
-// applies them (quiescence via testing/synctest), against harness actions:
-// Download calls, piece deliveries from a seeding peer, manual removal, idle
-// timeout ticks and shutdown.
+// C17: every blob download request returns exactly once. The harness lives in
+// verif/schedh (shared with C20's scheduler-level part).
 package main
 
 import (
-	"bytes"
 	"fmt"
-	"io"
 	"os"
-	"sort"
 	"strings"
-	"sync"
 	"testing"
-	"time"
-
-	"github.com/andres-erbsen/clock"
-	"github.com/uber-go/tally"
-	"github.com/willf/bitset"
-
-	"github.com/uber/kraken/core"
-	"github.com/uber/kraken/lib/store"
-	"github.com/uber/kraken/lib/torrent/scheduler"
-	"github.com/uber/kraken/lib/torrent/scheduler/conn"
-	"github.com/uber/kraken/lib/torrent/storage/agentstorage"
-	"github.com/uber/kraken/lib/torrent/storage/piecereader"
-	"github.com/uber/kraken/tracker/metainfoclient"
-	klog "github.com/uber/kraken/utils/log"
 
 	"verif/e1q"
 	"verif/evid"
 	_ "verif/quiet"
 	"verif/rep"
+	"verif/schedh"
 	"verif/vrt"
 )
 
-var blob = []byte("abc")
-
-const pieceLen = 2
-
-type fakeMessages struct {
-	mu     sync.Mutex
-	recv   chan *conn.Message
-	closed bool
-	sent   []string
-}
-
-func (f *fakeMessages) Send(m *conn.Message) error {
-	f.mu.Lock()
-	defer f.mu.Unlock()
-	if f.closed {
-		return fmt.Errorf("closed")
+// only keeps the C17 clauses of the shared harness's verdict.
+func only(h *vrt.Harness) *vrt.Harness {
+	inner := h.RunOnce
+	h.RunOnce = func(prefix []int) (*vrt.Exec, string, string) {
+		x, obs, vio := inner(prefix)
+		return x, obs, schedh.Filter(vio, "C17")
 	}
-	f.sent = append(f.sent, m.Message.Type.String())
-	return nil
-}
-func (f *fakeMessages) Receiver() <-chan *conn.Message { return f.recv }
-func (f *fakeMessages) Close() {
-	f.mu.Lock()
-	defer f.mu.Unlock()
-	if !f.closed {
-		f.closed = true
-		close(f.recv)
-	}
-}
-func (f *fakeMessages) isClosed() bool { f.mu.Lock(); defer f.mu.Unlock(); return f.closed }
-
-type scenario struct {
-	name      string
-	downloads int
-	remove    bool
-	tick      bool
-	shutdown  bool
-	bound     int
-}
-
-func scenarios(thorough bool) []scenario {
-	sc := []scenario{
-		{name: "1 download + remove", downloads: 1, remove: true, bound: 99},
-		{name: "1 download + idle tick", downloads: 1, tick: true, bound: 99},
-		{name: "1 download + shutdown", downloads: 1, shutdown: true, bound: 99},
-		{name: "2 downloads + remove + tick + shutdown", downloads: 2, remove: true, tick: true, shutdown: true, bound: 2},
-		{name: "2 downloads + remove", downloads: 2, remove: true, bound: 99},
-	}
-	if thorough {
-		sc = append(sc,
-			scenario{name: "2 downloads + tick + shutdown", downloads: 2, tick: true, shutdown: true, bound: 4},
-			scenario{name: "2 downloads + remove + tick + shutdown (deep)", downloads: 2, remove: true, tick: true, shutdown: true, bound: 4},
-		)
-	}
-	return sc
-}
-
-func harness(sc scenario) *vrt.Harness {
-	return e1q.HarnessOpt(sc.name, 200, false, func(c *e1q.Ctl) (string, string) {
-		dir, err := os.MkdirTemp("", "c17-")
-		if err != nil {
-			return "", "HARNESS: " + err.Error()
-		}
-		defer os.RemoveAll(dir)
-		cads, err := store.NewCADownloadStore(store.CADownloadStoreConfig{
-			DownloadDir: dir + "/download", CacheDir: dir + "/cache",
-			DownloadCleanup: store.CleanupConfig{Disabled: true}, CacheCleanup: store.CleanupConfig{Disabled: true},
-		}, tally.NoopScope)
-		if err != nil {
-			return "", "HARNESS: " + err.Error()
-		}
-		defer cads.Close()
-		dg, _ := core.NewDigester().FromBytes(blob)
-		mi, err := core.NewMetaInfo(dg, bytes.NewReader(blob), pieceLen)
-		if err != nil {
-			return "", "HARNESS: " + err.Error()
-		}
-		tc := metainfoclient.NewTestClient()
-		tc.Upload(mi)
-		ta := agentstorage.NewTorrentArchive(tally.NoopScope, cads, tc)
-		cfg := scheduler.Config{
-			SeederTTI: time.Minute, LeecherTTI: time.Minute, DisablePreemption: true,
-			Conn: conn.ConfigFixture(), TorrentLog: klog.Config{Disable: true}, Log: klog.Config{Disable: true},
-		}
-		pctx := core.PeerContext{PeerID: core.PeerIDFixture(), Zone: "z", IP: "localhost", Port: 1}
-		v, err := scheduler.VerifNew(cfg, ta, pctx, clock.New(), c.Park)
-		if err != nil {
-			return "", "HARNESS: " + err.Error()
-		}
-
-		var mu sync.Mutex
-		started := make([]bool, sc.downloads)
-		returned := make([]int, sc.downloads)
-		results := make([]error, sc.downloads)
-		var atReturn []string
-		var present []string // cache state at every quiescent point
-		cacheState := func() string {
-			r, rerr := cads.Cache().GetFileReader(dg.Hex())
-			if rerr != nil {
-				return "absent"
-			}
-			b, _ := io.ReadAll(r)
-			r.Close()
-			if !bytes.Equal(b, blob) {
-				return "wrong"
-			}
-			return "blob"
-		}
-		observe := func() {
-			c.Wait()
-			st := cacheState()
-			mu.Lock()
-			present = append(present, st)
-			mu.Unlock()
-		}
-		var fm *fakeMessages
-		delivered := map[int]bool{}
-		removeUsed, tickUsed, shutdownUsed := false, false, false
-		nPieces := mi.NumPieces()
-
-		actions := func() []e1q.Action {
-			var a []e1q.Action
-			for i := 0; i < sc.downloads; i++ {
-				i := i
-				if !started[i] && (i == 0 || started[i-1]) {
-					a = append(a, e1q.Action{Label: fmt.Sprintf("call Download#%d", i), Run: func() {
-						started[i] = true
-						go func() {
-							mu.Lock()
-							from := len(present) - 1 // last observation before the call
-							mu.Unlock()
-							err := v.Download("ns", dg)
-							// "success only when the blob is THEN in the local cache": look at
-							// the cache at the moment the call returns. A concurrent manual
-							// removal may delete the blob at any time, so (linearizability)
-							// success is also legitimate when the complete blob was in the cache
-							// at some observation during the call.
-							bad := ""
-							if err == nil {
-								st := cacheState()
-								mu.Lock()
-								ok := st == "blob"
-								for k := max(from, 0); k < len(present); k++ {
-									ok = ok || present[k] == "blob"
-								}
-								wrong := st == "wrong"
-								mu.Unlock()
-								if wrong {
-									bad = "Download returned success but the cached bytes differ from the blob"
-								} else if !ok {
-									bad = "Download returned success but the blob was not in the cache at any time during the call"
-								}
-							}
-							mu.Lock()
-							returned[i]++
-							results[i] = err
-							if bad != "" {
-								atReturn = append(atReturn, bad)
-							}
-							mu.Unlock()
-						}()
-					}})
-				}
-			}
-			if d := v.Dispatcher(dg); d != nil && fm == nil && !d.Complete() {
-				a = append(a, e1q.Action{Label: "seeder connects", Run: func() {
-					fm = &fakeMessages{recv: make(chan *conn.Message)}
-					b := bitset.New(uint(nPieces)).Complement()
-					if err := v.VerifAddPeer(dg, core.PeerIDFixture(), b, fm); err != nil {
-						fm.Close()
-					}
-				}})
-			}
-			if fm != nil && !fm.isClosed() {
-				for k := 0; k < nPieces; k++ {
-					k := k
-					if !delivered[k] {
-						a = append(a, e1q.Action{Label: fmt.Sprintf("seeder delivers piece %d", k), Run: func() {
-							delivered[k] = true
-							s, e := k*pieceLen, min((k+1)*pieceLen, len(blob))
-							msg := conn.NewPiecePayloadMessage(k, piecereader.NewBuffer(blob[s:e]))
-							go func() {
-								defer func() { recover() }() // conn closed concurrently
-								fm.recv <- msg
-							}()
-						}})
-						break // pieces in order: the order of pieces is not the subject here
-					}
-				}
-			}
-			anyStarted := started[0]
-			if sc.remove && !removeUsed && anyStarted {
-				a = append(a, e1q.Action{Label: "call RemoveTorrent", Run: func() { removeUsed = true; go v.RemoveTorrent(dg) }})
-			}
-			if sc.tick && !tickUsed && anyStarted {
-				a = append(a, e1q.Action{Label: "idle 2min + preemption tick", Run: func() {
-					tickUsed = true
-					e1q.Sleep(2 * time.Minute)
-					go v.SendPreemptionTick()
-				}})
-			}
-			if sc.shutdown && !shutdownUsed && anyStarted {
-				a = append(a, e1q.Action{Label: "shutdown", Run: func() { shutdownUsed = true; go v.SendShutdown() }})
-			}
-			return a
-		}
-		for observe(); c.Step(actions); observe() {
-		}
-		// closing phase: stop the scheduler (if not yet), drain every pending event
-		if !shutdownUsed {
-			go v.SendShutdown()
-		}
-		for observe(); c.Step(nil); observe() {
-		}
-		if fm != nil {
-			fm.Close()
-		}
-		for observe(); c.Step(nil); observe() {
-		}
-		c.Wait()
-
-		// oracle
-		var vio []string
-		mu.Lock()
-		defer mu.Unlock()
-		var obs []string
-		for i := 0; i < sc.downloads; i++ {
-			if !started[i] {
-				obs = append(obs, "-")
-				continue
-			}
-			if returned[i] == 0 {
-				vio = append(vio, fmt.Sprintf("Download call never returned (scheduler stopped, all events drained)"))
-				obs = append(obs, "BLOCKED")
-				continue
-			}
-			err := results[i]
-			switch err {
-			case nil:
-				obs = append(obs, "ok")
-			case scheduler.ErrTorrentNotFound, scheduler.ErrTorrentTimeout, scheduler.ErrTorrentRemoved, scheduler.ErrSchedulerStopped:
-				obs = append(obs, err.Error())
-			default:
-				vio = append(vio, "Download returned an undocumented error: "+err.Error())
-				obs = append(obs, "other")
-			}
-		}
-		vio = append(vio, atReturn...)
-		for _, f := range v.AQ.Faults {
-			vio = append(vio, f)
-		}
-		sort.Strings(vio)
-		return strings.Join(obs, "|"), strings.Join(dedup(vio), "; ")
-	})
-}
-
-func dedup(s []string) []string {
-	var o []string
-	for i, x := range s {
-		if i == 0 || s[i-1] != x {
-			o = append(o, x)
-		}
-	}
-	return o
+	return h
 }
 
 func main() {
 	e1q.Main(func(t *testing.T) {
 		var hs []*vrt.Harness
-		for _, sc := range scenarios(true) {
-			hs = append(hs, harness(sc))
+		for _, sc := range schedh.Scenarios(true) {
+			hs = append(hs, only(schedh.Harness(sc)))
 		}
 		vrt.WorkerMain(hs)
 		if os.Getenv("C17_DEBUG_DET") != "" {
@@ -325,14 +47,14 @@ func main() {
 		if run.Thorough() {
 			maxDur = 300
 		}
-		for _, sc := range scenarios(run.Thorough()) {
-			h := harness(sc)
+		for _, sc := range schedh.Scenarios(run.Thorough()) {
+			h := only(schedh.Harness(sc))
 			_, o1, _ := vrt.Replay(h, nil)
 			_, o2, _ := vrt.Replay(h, nil)
 			if o1 != o2 {
-				run.Fatal(fmt.Errorf("non-deterministic replay in %q: %q vs %q", sc.name, o1, o2))
+				run.Fatal(fmt.Errorf("non-deterministic replay in %q: %q vs %q", sc.Name, o1, o2))
 			}
-			rep.VRT(run, h, sc.bound, evid.Workers(), maxDur, func(v vrt.Violation) string {
+			rep.VRT(run, h, sc.Bound, evid.Workers(), maxDur, func(v vrt.Violation) string {
 				m := strings.SplitN(v.Msg, "\n", 2)[0]
 				if len(m) > 140 {
 					m = m[:140]
